@@ -33,6 +33,7 @@ type PInputSpec struct {
 	P       uint `json:"p"`
 	Cap     int  `json:"cap"`
 	Prefill int  `json:"prefill,omitempty"`
+	Writers int  `json:"parked_writers,omitempty"` // > 0: that many goroutines keep sending to this (small) channel
 }
 
 type DivFault struct {
@@ -101,6 +102,7 @@ type prioResult struct {
 	PriosWith2      int
 	Log             []string
 	Aborted         string
+	ReAdds          int
 	Stalled         string // Starved scenarios: the liveness expectation at which the run was ended
 }
 
@@ -229,8 +231,9 @@ func (x *prioExec) onRecv(d Dlv) {
 		}
 		x.fail(prop, "tag", "item %+v written to the channel registered under priority %d was delivered tagged %d", d.It, in.P, d.Tag)
 	}
-	if x.sc.simple() {
-		// H handler goroutines race to enter Handle: only exactly-once is claimed, not order
+	if x.sc.simple() || in.multi > 0 {
+		// H handler goroutines race to enter Handle (or several writers race to send): only
+		// exactly-once is claimed, not order
 		if in.seen == nil {
 			in.seen = map[int]bool{}
 		}
@@ -313,6 +316,14 @@ func (x *prioExec) heldVector() string {
 func (x *prioExec) armed() bool {
 	need := int(x.sc.H) + x.sys.outCap + 1
 	for _, in := range x.inputs {
+		if in.multi > 0 {
+			// parked writers: at every quiescent point `multi` >= 2H + cap(output) + 4 of them
+			// sit in a send; that is more than the discipline can take before the next one
+			if in.mwEnded {
+				return false
+			}
+			continue
+		}
 		if in.enq-in.recv < need {
 			return false
 		}
@@ -722,6 +733,8 @@ func (x *prioExec) do(op POp) {
 		x.holdCheck(op)
 	case "add", "repl":
 		x.addInput(op)
+	case "readd":
+		x.reAddInput(op)
 	case "rm":
 		x.removeInput(op)
 	case "graceful":
@@ -1012,6 +1025,29 @@ func (x *prioExec) addInput(op POp) {
 	}()
 }
 
+// reAddInput calls AddInput with the channel that is already registered for the priority:
+// nothing changes - not the channel, not the set of priorities, not the shares.
+func (x *prioExec) reAddInput(op POp) {
+	in := x.inputs[op.P]
+	if x.sys.addInput == nil || x.stopIssued || in == nil {
+		return
+	}
+	if !x.awaitCtl() {
+		return
+	}
+	c := &ctlCall{op: "AddInput(same channel)", p: op.P, in: in}
+	x.ctls = append(x.ctls, c)
+	x.res.CtlOps++
+	x.res.ReAdds++
+	x.logf("AddInput(channel #%d again, priority %d) called", in.ID, op.P)
+	x.wg.Add(1)
+	go func() {
+		defer x.wg.Done()
+		x.sys.addInput(in)
+		c.done.Store(true)
+	}()
+}
+
 func (x *prioExec) removeInput(op POp) {
 	if x.sys.removeInput == nil || x.stopIssued {
 		return
@@ -1218,6 +1254,11 @@ func runPrioV(sc PrioScenario, ctl *bubbleCtl) *prioResult {
 			total += op.N
 		}
 	}
+	for _, spec := range sc.Inputs {
+		if spec.Writers > 0 {
+			total += spec.Writers + spec.Cap + 40*int(sc.H) // what parked writers may get through (simple: capacity of the entered channel)
+		}
+	}
 	var prios []uint
 	for _, spec := range sc.Inputs {
 		in := newPInput(spec.P, x.nextCh, spec.Cap, 8192)
@@ -1225,6 +1266,7 @@ func runPrioV(sc PrioScenario, ctl *bubbleCtl) *prioResult {
 		in.prefill(spec.Prefill)
 		res.Written += spec.Prefill
 		total += spec.Prefill
+		in.multi = spec.Writers
 		x.inputs[spec.P] = in
 		x.chans = append(x.chans, in)
 		prios = append(prios, spec.P)
@@ -1245,6 +1287,16 @@ func runPrioV(sc PrioScenario, ctl *bubbleCtl) *prioResult {
 		b.Inputs = append(b.Inputs, in)
 	}
 	x.ignoreErr = sc.Ver == "v2" && sc.Fault != nil && (sc.Seed/7)%3 == 0
+	parked := false
+	for _, in := range x.chans {
+		if in.multi > 0 {
+			in.startParked(x.abort)
+			parked = true
+		}
+	}
+	if parked {
+		synctest.Wait() // every parked writer sits in its send before the discipline exists
+	}
 	sys, err := buildPrio(b)
 	x.mon.created.Store(true)
 	if err != nil {
@@ -1266,7 +1318,9 @@ func runPrioV(sc PrioScenario, ctl *bubbleCtl) *prioResult {
 	}
 	x.sys = sys
 	for _, in := range x.chans {
-		in.startWriter(x.abort, &x.wg)
+		if in.multi == 0 {
+			in.startWriter(x.abort, &x.wg)
+		}
 	}
 	for _, op := range sc.Script {
 		if x.failed || x.termSeen || x.stopIssued || (x.mon.faulted.Load() && sc.Fault != nil) {
